@@ -6,7 +6,7 @@
 From stdpp Require Import gmap list.
 From Coq Require Import NArith ZArith.
 From VFS Require Import Core.Types Core.Prog Core.Calls Base.MemFS Base.PhysFS Base.Handles Base.Store Layer.VfsPath Spec.Tree
-  Proofs.MemProofs Proofs.MemCalls Proofs.MemPublic Proofs.PhysProofs.
+  Proofs.MemProofs Proofs.MemCalls Proofs.MemPublic Proofs.PhysProofs Proofs.PhysCreate.
 
 Notation mstate := (gmap (list (list N)) memfile).
 
@@ -64,6 +64,37 @@ Theorem C02_agree_remove_dir : forall hs hs' lg lg' ft ft' (s : mstate) (ps : ph
 Proof. exact agree_remove_dir. Qed.
 
 (** the empty filesystems are related *)
+(** create_dir on the modelled PhysicalFS meets the same contract as on MemoryFS (outcome class:
+    ok / file-exists / directory-exists / error; exact effect), hence the backends agree on it *)
+Theorem C02_phys_create_dir : forall hs lg ft (s : physfs) p, pwf (p_tree s) -> p <> [] ->
+  exists s' r, run bhandler (vp_create_dir pv p) (pstore s hs lg ft) = (pstore s' hs lg ft, r) /\
+    pabs s' = fst (spec_create_dir (pabs s) p) /\
+    class_of r = snd (spec_create_dir (pabs s) p) /\ pwf (p_tree s').
+Proof. exact prefine_create_dir. Qed.
+
+Theorem C02_agree_create_dir : forall (hs hs' : list hstate) (lg lg' : list (nat * fscall)) (ft ft' : option (nat * nat))
+    (s : mstate) (ps : physfs) (p : path),
+  wf s -> pwf (p_tree ps) -> abs s = pabs ps -> p <> [] ->
+  exists s' r ps' r',
+    run bhandler (vp_create_dir mv p) (mstore s hs lg ft) = (mstore s' hs lg ft, r) /\
+    run bhandler (vp_create_dir pv p) (pstore ps hs' lg' ft') = (pstore ps' hs' lg' ft', r') /\
+    abs s' = pabs ps' /\ wf s' /\ pwf (p_tree ps') /\ class_of r = class_of r'.
+Proof. exact agree_create_dir. Qed.
+
+(** whole histories: ANY sequence of exists / create_dir / remove_file / remove_dir calls on any paths
+    (calls of the wrong type for their target included; the root excluded for the two directory
+    calls), run on MemoryFS and on the modelled PhysicalFS from related states: call by call the same
+    success/failure and the same answer of exists, and the same tree at the end *)
+Theorem C02_agree_history : forall (hs hs' : list hstate) (lg lg' : list (nat * fscall)) (ft ft' : option (nat * nat))
+    (ops : list hop4) (s : mstate) (ps : physfs),
+  Forall hop4_ok ops -> wf s -> pwf (p_tree ps) -> abs s = pabs ps ->
+  exists s' ps',
+    fst (hist_run mv ops (mstore s hs lg ft)) = mstore s' hs lg ft /\
+    fst (hist_run pv ops (pstore ps hs' lg' ft')) = pstore ps' hs' lg' ft' /\
+    snd (hist_run mv ops (mstore s hs lg ft)) = snd (hist_run pv ops (pstore ps hs' lg' ft')) /\
+    abs s' = pabs ps' /\ wf s' /\ pwf (p_tree ps').
+Proof. exact agree_history. Qed.
+
 Example C02_example : abs mem_new = pabs phys_new /\ wf mem_new /\ pwf (p_tree phys_new).
 Proof.
   split; [|split].
@@ -83,3 +114,6 @@ Print Assumptions C02_agree_exists.
 Print Assumptions C02_agree_remove_file.
 Print Assumptions C02_agree_remove_dir.
 Print Assumptions C02_example.
+Print Assumptions C02_phys_create_dir.
+Print Assumptions C02_agree_create_dir.
+Print Assumptions C02_agree_history.
